@@ -21,7 +21,7 @@ VARIANTS = {
 SIM_SYMS = """accept accept4 bind calloc close daemon epoll_create epoll_create1 epoll_ctl epoll_wait epoll_pwait
 fcntl fopen free freeaddrinfo ftruncate fsync fdatasync getaddrinfo getpwnam getsockname listen lseek malloc mmap munmap open read
 realloc realpath recv rename send sendmsg setgid setsockopt setuid shutdown sigaction signal socket syslog vsyslog openlog closelog
-timerfd_create timerfd_settime unlink write writev clock_gettime""".split()
+timerfd_create timerfd_settime unlink write writev clock_gettime open64 creat fstat fchmod fchown""".split()
 
 PURE_OK = set("""__assert_fail __ctype_b_loc __ctype_tolower_loc __ctype_toupper_loc __errno_location __isoc99_sscanf bcmp memcmp memcpy memmove memset
 crypt fclose fread fprintf fputs fwrite getopt optarg optind opterr in6addr_any in6addr_loopback memchr memmem snprintf sprintf stderr stdout strcasecmp strcasestr strcat
